@@ -716,3 +716,67 @@ def header_start_model(facts):
             yield fn, case, {'span': unopt(f.get('span')), 'implicit': f.get('implicit'), 'dotted': f.get('dotted'), 'decor': f.get('decor'), 'position': unopt(f.get('doc_position')),
                              'adopted': f.get('tag') == 'adopted', 'path': [k[2].get('key') for k in getattr(st[2]['current_table_path'], 'items', [])], 'is_array': st[2]['current_is_array'],
                              'counter': st[2]['current_table_position']}
+
+
+
+def finalize_model(facts):
+    """ParseState::finalize_table evaluated on a model parser state: the table collected for the current header is attached to the tree.
+    Yields (case, outcome); outcome is 'unanalysable: ..' / 'panic: ..', or a dict {'ok': bool, ...facts about where the table went}."""
+    from .den import RecInterp, Evaluator, EvalPanic, Unanalysable, VecObj
+    I = 'toml_edit::item::Item::'
+    E = 'toml_edit::table::Entry::'
+    SOME, NONE = 'core::option::Option::Some', 'core::option::Option::None'
+    d = 'toml_edit::parser::state::ParseState::finalize_table'
+    if not facts.has_body(d):
+        yield 'finalize_table', 'unanalysable: not found'
+        return
+    b = facts.body(d)
+
+    def T(implicit, tag, span=None):
+        return ('struct', 'toml_edit::table::Table', {'implicit': implicit, 'dotted': False, 'items': (), 'span': ('ctor', NONE) if span is None else ('ctor', SOME, (span,)),
+                                                       'decor': ('d',), 'doc_position': ('ctor', NONE), 'tag': tag})
+    K = lambda n: ('struct', 'toml_edit::key::Key', {'key': n})
+    tag_of = lambda item: item[2][0][2].get('tag') if isinstance(item, tuple) and len(item) == 3 and item[1] == I + 'Table' else None
+
+    def run(path, is_array, entry=None, existing=None):
+        st = ('struct', 'toml_edit::parser::state::ParseState', {'root': T(False, 'root'), 'current_table': T(False, 'current', ('range', 10, 19)), 'current_table_path': VecObj(path),
+                                                               'current_table_position': 4, 'current_is_array': is_array, 'trailing': ('ctor', NONE)})
+        stubs = {}
+        if entry is not None:
+            stubs['entry_format'] = entry
+        if existing is not None:
+            stubs['into_mut'] = existing
+            stubs['or_insert'] = existing
+        it = RecInterp(Evaluator(facts), {'insert'}, {'descend_path', 'duplicate_key'}, stubs=stubs)
+        it.model_mem = True
+        r = it.apply_fn(b, [st])
+        ok = isinstance(r, tuple) and r[:2] == ('ctor', 'core::result::Result::Ok')
+        return ok, st, it
+    cases = []
+    cases.append(('the root section', lambda: run([], False)))
+    cases.append(('[a.b] with nothing under the name', lambda: run([K('a'), K('b')], False, entry=('ctor', E + 'Vacant', (('vacant',),)))))
+    for name, ex in (('a header-implied table', ('ctor', I + 'Table', (T(True, 'placeholder'),))), ('an explicit table', ('ctor', I + 'Table', (T(False, 'other'),))),
+                     ('a value', ('ctor', I + 'Value', (('opaque',),)))):
+        cases.append((f'[a.b] with {name} under the name', (lambda ex=ex: run([K('a'), K('b')], False, entry=('ctor', E + 'Occupied', (('occupied',),)), existing=ex)), ex))
+    aot = ('ctor', I + 'ArrayOfTables', (('struct', 'toml_edit::array_of_tables::ArrayOfTables', {'values': VecObj([('ctor', I + 'Table', (T(False, 'first', ('range', 1, 5)),))]), 'span': ('ctor', NONE)}),))
+    cases.append(('[[a.b]] with an array of tables under the name', (lambda: run([K('a'), K('b')], True, existing=aot)), aot))
+    tbl = ('ctor', I + 'Table', (T(False, 'other'),))
+    cases.append(('[[a.b]] with a table under the name', (lambda: run([K('a'), K('b')], True, existing=tbl)), tbl))
+    for c in cases:
+        name, fn = c[0], c[1]
+        ex = c[2] if len(c) > 2 else None
+        try:
+            ok, st, it = fn()
+        except EvalPanic as e:
+            yield name, f'panic: {e}'
+            continue
+        except Unanalysable as e:
+            yield name, f'unanalysable: {e}'
+            continue
+        out = {'ok': ok, 'root': st[2]['root'][2].get('tag'), 'left_default': st[2]['current_table'][2].get('@default') is True or st[2]['current_table'][2].get('tag') != 'current',
+               'inserted': [tag_of(a[0]) for nm, a in it.calls if nm == 'insert' and a], 'entry': tag_of(ex) if ex is not None else None}
+        if ex is aot:
+            arr = aot[2][0][2]
+            out['elements'] = [tag_of(x) for x in arr['values'].items]
+            out['span'] = arr['span'][2][0] if isinstance(arr['span'], tuple) and len(arr['span']) > 2 else None
+        yield name, out
